@@ -214,6 +214,24 @@ def check_linked_split(R, rng, label):
         for f in irwf.check_program(program):
             R.violation("%s:linked-multi-module" % f["rule"], "%s: %s in %s of a program linked from %d modules: %s" % (label, f["rule"], f["fn"], len(mods), f),
                         {"sources": {n: sp.layouts[n][0] for n in sp.layouts}, "finding": f, "pass": "link"})
+        # the same compiled module objects linked a second time by a new linker (a build tool that links a test program and
+        # then the real one): that program must be complete as well
+        try:
+            with nslapi.quiet():
+                linker2 = nslapi.LinearIR.Linker(loader=nslapi.LinearIR.FilesystemModuleLoader())
+                for m in reversed(roots):
+                    linker2.AddModule(m)
+                program2 = linker2.Link()
+        except Exception as e:
+            R.violation("second-link-of-the-same-modules-fails:%s" % type(e).__name__, "%s: linking the same module objects a second time raises %s: %s"
+                        % (label, type(e).__name__, str(e)[:100]), {"sources": {n: sp.layouts[n][0] for n in sp.layouts}, "pass": "link-again"})
+            return
+        R.evaluations += 1
+        R.count("linked_again_programs_checked")
+        for f in irwf.check_program(program2):
+            R.violation("%s:linked-again" % f["rule"], "%s: %s in %s of the program a second link of the same module objects gives: %s" % (label, f["rule"], f["fn"], f),
+                        {"sources": {n: sp.layouts[n][0] for n in sp.layouts}, "finding": f, "pass": "link-again"})
+            break
         R.nontriv(repr(sorted((n, sp.layouts[n][0]) for n in sp.layouts)))
     finally:
         os.chdir(old)
